@@ -206,7 +206,8 @@ def coq_ops(ops):
 
 
 def coq_cb(cb):
-    return clist(["(%s, %s)" % (cz(a), cnat(i)) for a, i in cb])
+    # a negative index handed to the callback is written as 4999 (no recorded chain is that long): it can match nothing
+    return clist(["(%s, %s)" % (cz(a), cnat(i if 0 <= i < 4999 else 4999)) for a, i in cb])
 
 
 def coq_tunes(t):
@@ -216,6 +217,65 @@ def coq_tunes(t):
 # ------------------------------------------------------------------------------------------------------------------
 # configurations
 # ------------------------------------------------------------------------------------------------------------------
+def build_x0(x0):
+    """initial point in the declaration style asked for: x0 is a list of numbers (float64 array) or {"v": [...], "style": s}
+    with s in list | float32 | int | view (non-contiguous view of a larger user array)"""
+    if isinstance(x0, dict):
+        v, style = x0["v"], x0["style"]
+        if style == "list":
+            return [float(a) for a in v]
+        if style == "float32":
+            return np.array(v, dtype=np.float32)
+        if style == "int":
+            return np.array([int(round(a)) for a in v])
+        if style == "view":
+            big = np.zeros(2 * len(v) + 1)
+            big[1::2] = v
+            return big[1::2]
+        return np.array(v, dtype=float)
+    return np.array(x0, dtype=float)
+
+
+def deep_fp(o, depth=6, seen=None):
+    """structural fingerprint of a helper object (target, proposal, prior, model ...): every array by its bytes, every
+    attribute recursively, closures of functions included"""
+    import hashlib, types
+    import scipy.sparse as sps
+    if seen is None:
+        seen = {}
+    if isinstance(o, (int, float, str, bool, type(None), complex, np.number, bytes)):
+        return repr(o)
+    if isinstance(o, np.ndarray):
+        return "a:%s%r%s" % (o.dtype, o.shape, hashlib.sha1(np.ascontiguousarray(o).tobytes()).hexdigest()[:12])
+    if sps.issparse(o):
+        c = o.tocoo()
+        return "sp:%r%s" % (o.shape, hashlib.sha1(c.row.tobytes() + c.col.tobytes() + np.ascontiguousarray(c.data).tobytes()).hexdigest()[:12])
+    if id(o) in seen or depth == 0:
+        return "<%s>" % type(o).__name__
+    seen[id(o)] = 1
+    if isinstance(o, (list, tuple)):
+        return "[" + ",".join(deep_fp(x, depth - 1, seen) for x in o) + "]"
+    if isinstance(o, (set, frozenset)):
+        return "{" + ",".join(sorted(deep_fp(x, depth - 1, seen) for x in o)) + "}"
+    if isinstance(o, dict):
+        return "{" + ",".join("%s:%s" % (k, deep_fp(v, depth - 1, seen)) for k, v in sorted(o.items(), key=lambda kv: str(kv[0]))) + "}"
+    if isinstance(o, types.FunctionType):
+        cl = []
+        for c in (o.__closure__ or []):
+            try:
+                cl.append(deep_fp(c.cell_contents, depth - 1, seen))
+            except ValueError:
+                cl.append("<empty>")
+        return "f:%s(%s)" % (o.__qualname__, ",".join(cl))
+    if isinstance(o, types.MethodType):
+        return "m:%s.%s" % (type(o.__self__).__name__, o.__func__.__qualname__)
+    if isinstance(o, (type, types.ModuleType)):
+        return "t:%s" % getattr(o, "__name__", "?")
+    if hasattr(o, "__dict__"):
+        return "%s{%s}" % (type(o).__name__, ",".join("%s=%s" % (k, deep_fp(v, depth - 1, seen)) for k, v in sorted(vars(o).items())))
+    return "<%s>" % type(o).__name__
+
+
 class World:
     """targets (built once, shared by all samplers of a configuration) and sampler factories"""
 
@@ -254,8 +314,14 @@ class World:
         da = Gamma(1, 1e-2, name="d")
         xa = LMRF(0, lambda d: 1 / d, geometry=n, name="x")
         conja = JointDistribution(da, xa)(x=np.array([0.5, -0.25, 1.0]))
-        self.dims = {"g2": 2, "post": n, "postr": n, "postl": n, "conj": 1, "conja": 1}
-        T = {"g2": g2, "post": post, "postr": postr, "postl": postl, "conj": conj, "conja": conja}
+        # two likelihoods on one parameter: MultipleLikelihoodPosterior (the other branch of LinearRTO's target dispatch)
+        xm = Gaussian(np.zeros(n), 1.0, name="x")
+        y1 = Gaussian(A @ xm, 0.25, name="y1")
+        A2 = LinearModel(np.array([[1., 0, 1], [0, 2, 1]]))
+        y2 = Gaussian(A2 @ xm, 0.5, name="y2")
+        postm = JointDistribution(xm, y1, y2)(y1=ydata, y2=np.array([0.5, -1.0]))
+        self.dims = {"g2": 2, "post": n, "postr": n, "postl": n, "conj": 1, "conja": 1, "postm": n}
+        T = {"g2": g2, "post": post, "postr": postr, "postl": postl, "conj": conj, "conja": conja, "postm": postm}
         # experimental interface: name -> (class, target, kwargs)
         self.exp = {
             "MH/scale=0.7": (E.MH, "g2", dict(scale=0.7)),
@@ -272,6 +338,8 @@ class World:
             "RegularizedLinearRTO/stepsize=0.02": (E.RegularizedLinearRTO, "postr", dict(maxit=30, stepsize=0.02)),
             "UGLA": (E.UGLA, "postl", dict(maxit=20)),
             "Direct": (E.Direct, "g2", dict()),
+            "NUTS/step_size=0.5,max_depth=0": (E.NUTS, "g2", dict(step_size=0.5, max_depth=0)),      # falsy but legitimate depth
+            "LinearRTO/MultipleLikelihoodPosterior": (E.LinearRTO, "postm", dict(maxit=20)),
             "Conjugate/GaussianGamma": (E.Conjugate, "conj", dict()),
             "ConjugateApprox/LMRFGamma": (E.ConjugateApprox, "conja", dict()),
         }
@@ -281,6 +349,8 @@ class World:
             "MH/sample_adapt": (Lg.MH, "g2", dict(scale=0.7), "sample_adapt", "single_update"),
             "CWMH/sample": (Lg.CWMH, "g2", dict(scale=0.6), "sample", "single_update"),
             "CWMH/sample_adapt": (Lg.CWMH, "post", dict(scale=0.5), "sample_adapt", "single_update"),
+            # proposal given as a callable instead of a Distribution (the other branch of the isinstance dispatch)
+            "CWMH/callable-proposal": (Lg.CWMH, "g2", dict(scale=0.6, proposal=lambda x_t, scale: np.random.normal(x_t, scale)), "sample", "single_update"),
             "pCN/sample": (Lg.pCN, "post", dict(scale=0.12), "sample", "single_update"),
             "pCN/sample_adapt": (Lg.pCN, "post", dict(scale=0.12), "sample_adapt", "single_update"),
             "ULA/sample": (Lg.ULA, "post", dict(scale=0.01), "sample", "single_update"),
@@ -309,7 +379,7 @@ class World:
         cls, tkey, kw = self.exp[name]
         kw = {k: (v.copy() if isinstance(v, np.ndarray) else v) for k, v in kw.items()}
         if x0 is not None:
-            kw["initial_point"] = np.array(x0, dtype=float)
+            kw["initial_point"] = build_x0(x0)
         return cls(self.targets[tkey], **kw)
 
     def make_leg(self, name, x0):
@@ -468,9 +538,18 @@ def run_exp(W, name, x0, ops, seed, variant="mem", ledger=None):
         s.tune = tune
         return s
 
+    helpers = {}
+
     def hand_out(s, after):
         if init_b[0] is None:
             init_b[0] = canon(s.initial_point)
+            # helper objects step / tune work through (target, proposal, prior, model ...): fingerprint after first use
+            f_ = facts_of(getattr(W, "repo", "/repo")).get(type(s).__name__) or {}
+            for a_ in f_.get("external", []):
+                try:
+                    helpers[a_] = (getattr(s, a_), deep_fp(getattr(s, a_)))
+                except Exception:
+                    pass
         led.recheck(after)
         G = s.get_samples() if len(s._samples) else None
         outs.append(G)
@@ -493,7 +572,12 @@ def run_exp(W, name, x0, ops, seed, variant="mem", ledger=None):
             elif op[0] == "W":
                 st["base"] = len(s._samples) if s._is_initialized else 0
                 with stream, quiet():
-                    s.warmup(op[1], op[2] / op[3])
+                    if (op[2], op[3]) == (1, 10):
+                        s.warmup(op[1])                      # tune_freq left at its default (0.1)
+                    elif op[1] % 2:
+                        s.warmup(Nb=op[1], tune_freq=op[2] / op[3])
+                    else:
+                        s.warmup(op[1], op[2] / op[3])
                 pos += op[1]
             else:
                 fresh = attach(W.make_exp(name, x0))
@@ -545,7 +629,8 @@ def run_exp(W, name, x0, ops, seed, variant="mem", ledger=None):
             "last_resume": last_resume, "handout": led.bad, "ledger": led,
             "state": {k: canon_val(v) for k, v in sorted(s.get_state()["state"].items())},
             "draws": stream.draws(), "gs_ok": gs_ok, "init": init_b[0] if init_b[0] is not None else canon(s.initial_point),
-            "poisoned": poisoned, "sampler": s}
+            "poisoned": poisoned, "sampler": s,
+            "helpers_changed": sorted(a_ for a_, (o_, fp_) in helpers.items() if deep_fp(o_) != fp_)}
 
 
 def exp_expected(ref, ops):
@@ -591,6 +676,18 @@ def exp_check(ref, obs, ops):
         return ("resume" if has_r else "split", "the random stream is consumed differently (%d vs %d draws)" % (len(obs["draws"]), len(ref["draws"])))
     if obs.get("handout"):
         return ("handout:" + obs["handout"][0], obs["handout"][1])
+    if obs.get("helpers_changed"):
+        return ("helpers", "the run modified the helper object(s) %s it works through (deep comparison before / after)" % obs["helpers_changed"])
+    # documented contract of warmup(Nb, tune_freq): tune(interval, count) after every interval-th step, interval =
+    # max(int(tune_freq*Nb), 1), count = number of earlier tunings of this call.  Not in the letter of the property (both runs
+    # of a differential pair would shift alike); stated because the model of Sampler.warmup encodes it.
+    want = []
+    for o in ops:
+        if o[0] == "W":
+            ti = max(int((o[2] / o[3]) * o[1]), 1)
+            want += [(i, ti, i // ti) for i in range(o[1]) if (i + 1) % ti == 0]
+    if obs["tunes"] != want:
+        return ("tuning-schedule", "tune was called at (step index, skip_len, update_count) = %s, the documented schedule is %s" % (obs["tunes"][:6], want[:6]))
     # what get_samples() handed out after operation j, re-read at the end, is the chain recorded up to then
     chain, k, base = ref["smp"], 0, 0
     for j, o in enumerate(ops):
@@ -631,7 +728,7 @@ def run_legacy(W, name, x0, N, Nb, seed, scribble=False):
     stream = Stream(seed)
     try:
         with stream, quiet():
-            R = getattr(s, method)(N, Nb)
+            R = getattr(s, method)(N) if Nb == 0 else (getattr(s, method)(N, Nb) if N % 2 else getattr(s, method)(N, Nb=Nb))
     except Exception as e:
         return {"error": "%s: %s" % (type(e).__name__, e)}
     smp = cols(R)
@@ -843,13 +940,15 @@ def attrs_snapshot(s):
     return out
 
 
-def run_reinit(W, name, x0, prefix, K, seed):
+def run_reinit(W, name, x0, prefix, K, seed, reassign=None):
     """A: history `prefix`, then reinitialize and sample K; B: a fresh sampler initialised and sampling K -- both under
     the same stream"""
     pre = run_exp(W, name, x0, prefix, seed)
     a, led = pre["sampler"], pre["ledger"]
     cb = []
     a.callback = lambda x, i: cb.append((canon(x), int(i)))
+    if reassign is not None:
+        a.initial_point = build_x0(reassign)      # the user re-assigns a constructor argument, then re-initialises
     with Stream(seed + 31), quiet():
         a.reinitialize()
         led.recheck("reinitialize()")
@@ -857,7 +956,7 @@ def run_reinit(W, name, x0, prefix, K, seed):
         histA = (len(a._samples), len(a._acc))
         a.sample(K)
         led.recheck("sampling after reinitialize()")
-    b = W.make_exp(name, x0)
+    b = W.make_exp(name, reassign if reassign is not None else x0)
     with Stream(seed + 31), quiet():
         b.initialize()
         cfgB = attrs_snapshot(b)
@@ -875,9 +974,15 @@ def exp_case(W, cache, name, x0, ops, seed, variant):
     cls = W.exp[name][0].__name__
     nops = normalize(ops)
     key = (name, json.dumps(x0), json.dumps(nops), seed)
+    meta = {"kind": "exp", "config": name, "x0": x0, "ops": [list(o) for o in ops], "seed": seed, "variant": variant}
     if key not in cache:
         ids = Ids()
-        ref = run_exp(W, name, x0, nops, seed)
+        try:
+            ref = run_exp(W, name, x0, nops, seed)
+        except Exception as e:
+            return Case(expr="false", meta=meta, cell="exp/%s/error" % cls,
+                        impl_fail="%s %s: the uninterrupted run raised %s: %s" % (name, nops, type(e).__name__, e),
+                        signature="%s.run|%s" % (cls, name.split("/", 1)[-1]))
         ref.pop("sampler")
         ref.pop("ledger")
         ref["ids"] = ids
@@ -959,6 +1064,9 @@ def legacy_case(W, name, x0, N, Nb, seed, aliased):
 def gibbs_case(W, calls, nb, seed, scribble=False):
     meta = {"kind": "gibbs", "calls": calls, "Nb": nb, "seed": seed, "scribble": scribble}
     ref = run_gibbs(W, [sum(calls)], nb, seed)
+    if "error" in ref:
+        return Case(expr="false", meta=meta, cell="gibbs/legacy/error", trivial=False, kind="DECISION",
+                    impl_fail="legacy Gibbs sample(%d, %d) raised: %s" % (sum(calls), nb, ref["error"]), signature="legacy.Gibbs.sample|raises")
     obs = run_gibbs(W, calls, nb, seed, scribble=scribble)
     ids = Ids()
     ref_ids = [ids(b"init")] + [ids(b) for b in ref["warm"]] + [ids(b) for b in ref["smp"]]
@@ -1137,7 +1245,13 @@ def batch_cases(W, name, x0, N, k, M, seed, finalized):
             if led.bad:
                 bad2 = "%s sample(%d, batch_size=%d) then sample(%d, batch_size=%d): %s (batch numbering restarts at 0 in every call)" % (
                     name, N, k, M, k, led.bad[1])
-            out.append(Case(expr=cbool(True), meta=dict(meta, second=True), cell="batch/%s/second-call" % cls, trivial=False, kind="DECISION",
+            chain2 = [canon(x) for x in s._samples[N:]]
+            got2 = []
+            for fn in sorted(f for f in os.listdir(d) if f.endswith(".npz")):
+                got2.append([canon(r) for r in np.load(os.path.join(d, fn))["samples"]])
+            expr2 = "check_batch_files %s %s %s %s" % (cbool(finalized), cnat(k), clist([czvec([ids(b) for b in chain]), czvec([ids(b) for b in chain2])]),
+                                                       coq_ll(got2, ids))
+            out.append(Case(expr=expr2, meta=dict(meta, second=True), cell="batch/%s/second-call" % cls, trivial=False, kind="DECISION",
                             impl_fail=bad2, signature=SIG_BATCH2 if bad2 else ""))
     finally:
         shutil.rmtree(d, ignore_errors=True)
@@ -1196,6 +1310,59 @@ def cross_case(W, ename, lname, x0, N, seed, aliased):
     return Case(expr=expr, meta=meta, cell="cross/%s" % cls, trivial=N <= 1, kind="DECISION", impl_fail=bad, signature=sig)
 
 
+def style_case(W, name, v, style, seed):
+    """declaration style / dtype / memory layout of initial_point: the differential properties within that style"""
+    cls = W.exp[name][0].__name__
+    x0 = {"v": v, "style": style}
+    c = exp_case(W, {}, name, x0, [("S", 2), ("R",), ("S", 3)], seed, "mem")
+    if c.cell.endswith("/error"):
+        # the sampler (or the solver it calls) refuses this style: no chain, nothing recorded unfaithfully
+        return Case(expr="true", meta=c.meta, cell="x0-style/%s/%s/refused" % (cls, style), trivial=True, kind="DECISION")
+    c.cell = "x0-style/%s/%s" % (cls, style)
+    return c
+
+
+def hybrid_resume_case(W, name, warm, k, n, seed):
+    """HybridGibbs has no checkpoint interface; the composite checkpoint that exists -- get_state() of every block sampler
+    plus current_samples -- loaded into a HybridGibbs constructed afresh must continue with the sweeps of the uninterrupted
+    run (C14_gibbs_composite under the footprint facts of the block samplers)"""
+    meta = {"kind": "hybrid-resume", "config": name, "warm": warm, "k": k, "n": n, "seed": seed}
+    pre = ([("W", warm, 1, 2)] if warm else [])
+    ref = run_hybrid(W, name, pre + [("S", n)], seed)
+    st = Stream(seed, record=True)
+    err = None
+    try:
+        with st, quiet():
+            h = W.make_hybrid(name)
+            if warm:
+                h.warmup(warm, 0.5)
+            h.sample(k)
+        saved = {p: copy.deepcopy(h.samplers[p].get_state()) for p in h.par_names}
+        cs = copy.deepcopy(h.current_samples)
+        with ScriptedRandom(seed + 7919), quiet():
+            f = W.make_hybrid(name)
+        for p in f.par_names:
+            f.samplers[p].set_state(saved[p])
+        f.current_samples = cs
+        with st, quiet():
+            f.sample(n - k)
+        names = f.par_names
+        smp = [b"".join(canon(f.samples[q][j]) for q in names) for j in range(len(f.samples[names[0]]))]
+    except Exception as e:
+        smp, err = [], "%s: %s" % (type(e).__name__, e)
+    want = ref["smp"][warm + k:]
+    same = (smp == want)
+    promised = True       # every block class has footprint_ok facts (or a valid excuse) on the current tree; see Gen_C14.v
+    ids = Ids()
+    bad = None
+    if not same:
+        bad = "%s: block states + current_samples saved after %s%d sweeps and loaded into a fresh HybridGibbs: %s" % (
+            name, "warm-up %d + " % warm if warm else "", k, ("raised " + err) if err else "the continued chain differs from the uninterrupted run")
+    expr = "check_warm %s %s && check_sweeps %s %s" % (cbool(promised), cbool(same), czvec([ids(b) for b in want]), czvec([ids(b) for b in smp]))
+    return Case(expr=expr, meta=meta, cell="gibbs/%s/composite-resume%s" % (name, "+warmup" if warm else ""), trivial=False, kind="DECISION",
+                impl_fail=bad, signature="HybridGibbs.composite-resume|%s" % name.split("/", 1)[1] if bad else "")
+
+
 def burn_cases(W, name, x0, ops, seed, grid):
     """stateful interface: burn-in / thinning are applied afterwards to get_samples()"""
     cls = W.exp[name][0].__name__
@@ -1225,11 +1392,11 @@ def burn_cases(W, name, x0, ops, seed, grid):
     return out
 
 
-def reinit_case(W, name, x0, prefix, K, seed):
+def reinit_case(W, name, x0, prefix, K, seed, reassign=None):
     cls = W.exp[name][0].__name__
-    meta = {"kind": "reinit", "config": name, "x0": x0, "ops": [list(o) for o in prefix], "K": K, "seed": seed}
+    meta = {"kind": "reinit", "config": name, "x0": x0, "ops": [list(o) for o in prefix], "K": K, "seed": seed, "reassign": reassign}
     try:
-        r = run_reinit(W, name, x0, prefix, K, seed)
+        r = run_reinit(W, name, x0, prefix, K, seed, reassign)
     except Exception as e:
         return Case(expr="false", meta=meta, cell="reinit/%s/error" % cls, impl_fail="reinitialize raised %s: %s" % (type(e).__name__, e),
                     signature="%s.reinitialize|raises" % cls)
@@ -1255,7 +1422,7 @@ def reinit_case(W, name, x0, prefix, K, seed):
         bad, sig = "%s, history %s, then reinitialize: %s" % (name, prefix, r["handout"][1]), "%s.reinitialize|handout:%s" % (cls, r["handout"][0])
     expr = "check_exp %s %s %s %s %s [] && %s" % (czvec(ref_ids), coq_ops([("S", K)]), czvec([ids(b) for b in r["smpA"]]), cnat(r["nacc"]),
                                                   coq_cb([(ids(b), i) for b, i in r["cb"]]), cbool(not r["cfg_diff"] and r["hist"] == (0, 1) and not r["handout"]))
-    return Case(expr=expr, meta=meta, cell="reinit/%s" % cls, trivial=False, kind="DECISION", impl_fail=bad, signature=sig)
+    return Case(expr=expr, meta=meta, cell="reinit/%s%s" % (cls, "/reassigned-x0" if reassign is not None else ""), trivial=False, kind="DECISION", impl_fail=bad, signature=sig)
 
 
 # ------------------------------------------------------------------------------------------------------------------
@@ -1335,6 +1502,9 @@ def footprint_stage(ctx, known):
             failed.append(detail + "  facts=" + json.dumps(facts)[:1500])
 
     for c in sorted(exp):
+        for wpath in exp[c].get("external_writes", []):
+            failed.append("%s: step / tune / initialize store through a helper object: self.%s (helper objects are assumed not to be modified)" % (c, wpath))
+    for c in sorted(exp):
         f = exp[c]
         n += 0
         for r in TR.footprint_reasons(f):
@@ -1396,7 +1566,31 @@ def exp_ops_lattice(ctx, rng, warm_capable=True):
         out.append(([("S", a), ("R",), ("S", b), ("R",), ("S", c)], rng.choice(["mem", "live", "file"])))
         out.append(([("W", rng.randint(1, 6), 1, rng.choice([1, 2, 10])), ("S", a), ("R",), ("S", b), ("S", c)], "mem"))
     out.append(([("S", N)], "mem"))
+    # exact thresholds of the tuning interval int(tune_freq * Nb) (1.0 -> 1, 1.9 -> 1, 2.0 -> 2), tune_freq = 0, warmup(0)
+    for w in (("W", 10, 1, 10), ("W", 19, 1, 10), ("W", 20, 1, 10), ("W", 6, 0, 1), ("W", 0, 1, 2)):
+        out.append(([w, ("S", 2), ("R",), ("S", 2)], "mem"))
     return out
+
+
+class _Guarded(list):
+    """case list whose builders may not take the whole run down: a builder that crashes contributes a case the model cannot
+    confirm (reported as a disagreement without failing input unless other cases show one)"""
+
+
+def guard(fn, *a, **k):
+    try:
+        return fn(*a, **k)
+    except Exception as e:
+        tb = traceback.format_exc()[-1200:]
+        meta = {"kind": "crashed", "builder": getattr(fn, "__name__", "?"), "args": repr(a[1:])[:600], "error": "%s: %s" % (type(e).__name__, e)}
+        c = Case(expr="false", meta=meta, cell="harness/builder-crashed/%s" % getattr(fn, "__name__", "?"), trivial=True, kind="DECISION")
+        c.crash = tb
+        return c
+
+
+def _many(fn, *a, **k):
+    r = guard(fn, *a, **k)
+    return r if isinstance(r, list) else [r]
 
 
 def gen_cases(ctx, rng, thorough_sizes=None):
@@ -1411,19 +1605,27 @@ def gen_cases(ctx, rng, thorough_sizes=None):
             x0 = W.x0(rng, tkey, name)
             seed = rng.randint(1, 10 ** 6)
             for ops, variant in exp_ops_lattice(ctx, rng):
-                cases.append(exp_case(W, cache, name, x0, ops, seed, variant))
+                cases.append(guard(exp_case, W, cache, name, x0, ops, seed, variant))
         cache.clear()
+        # declaration style, dtype and memory layout of the initial point
+        if not name.endswith("default-x0"):
+            d_ = W.dims[tkey]
+            for style in ("list", "float32", "int", "view"):
+                cases.append(guard(style_case, W, name, [1.0, 2.0, 1.0][:d_], style, rng.randint(1, 10 ** 6)))
+            cases.append(guard(style_case, W, name, [0.0] * d_, "view", rng.randint(1, 10 ** 6)))           # all-zero (falsy) start
+            # a constructor argument re-assigned by the user, then reinitialize: the configuration is the re-assigned one
+            cases.append(guard(reinit_case, W, name, W.x0(rng, tkey, name), [("S", 2)], 3, rng.randint(1, 10 ** 6), reassign=W.x0(rng, tkey, name)))
         # burn-in / thinning afterwards (boundaries: Nb = 0, = warm-up length, = Ns-1, = Ns (refused); Nt = 0 (refused), 1, 2, > Ns)
         nb, n = 4, ctx.n(5, 9)
         grid = [(b, t) for b in (0, nb, nb + n - 1, nb + n) for t in (0, 1, 2, nb + n + 1)]
-        cases += burn_cases(W, name, W.x0(rng, tkey, name), [("W", nb, 1, 4), ("S", n)], rng.randint(1, 10 ** 6), grid)
+        cases += _many(burn_cases, W, name, W.x0(rng, tkey, name), [("W", nb, 1, 4), ("S", n)], rng.randint(1, 10 ** 6), grid)
         # checkpoint between warm-up calls: what the extracted facts promise must hold
         for (a, b, n, variant) in ((4, 4, 3, "mem"), (2, 6, 2, "poison"), (6, 2, 2, "file")) + (((10, 10, 5, "mem"), (7, 9, 4, "poison")) if ctx.thorough else ()):
-            cases.append(warm_case(W, name, W.x0(rng, tkey, name), a, b, n, rng.randint(1, 10 ** 6), variant))
+            cases.append(guard(warm_case, W, name, W.x0(rng, tkey, name), a, b, n, rng.randint(1, 10 ** 6), variant))
         # reinitialize
         for prefix in ([("S", 3)], [("W", 4, 1, 4), ("S", 2)], [("S", 0)]):
             x0 = W.x0(rng, tkey, name)
-            cases.append(reinit_case(W, name, x0, prefix, ctx.n(4, 10), rng.randint(1, 10 ** 6)))
+            cases.append(guard(reinit_case, W, name, x0, prefix, ctx.n(4, 10), rng.randint(1, 10 ** 6)))
     # ---- batches on disk
     try:
         fin = TR.batch_finalized(ctx.repo)
@@ -1432,7 +1634,7 @@ def gen_cases(ctx, rng, thorough_sizes=None):
     for name in ("MH/scale=0.7", "LinearRTO", "Direct"):
         tkey = W.exp[name][1]
         for (N, k, M) in ((6, 3, 3), (7, 3, 2), (5, 1, 0), (4, 4, 0), (3, 5, 4), (8, 3, 0)) + (((20, 7, 5), (21, 7, 7), (9, 2, 0)) if ctx.thorough else ()):
-            cases += batch_cases(W, name, W.x0(rng, tkey, name), N, k, M, rng.randint(1, 10 ** 6), fin)
+            cases += _many(batch_cases, W, name, W.x0(rng, tkey, name), N, k, M, rng.randint(1, 10 ** 6), fin)
     # ---- stateless interface
     try:
         leg_facts = TR.extract_legacy(ctx.repo)
@@ -1449,26 +1651,26 @@ def gen_cases(ctx, rng, thorough_sizes=None):
             grid = [(N, Nb) for N in range(1, ctx.n(6, 14)) for Nb in range(0, ctx.n(4, 9))]
         for (N, Nb) in grid:
             x0 = W.x0(rng, tkey) if tkey != "postr" else W.x0(rng, tkey)
-            cases.append(legacy_case(W, name, x0, N, Nb, rng.randint(1, 10 ** 6), aliased))
+            cases.append(guard(legacy_case, W, name, x0, N, Nb, rng.randint(1, 10 ** 6), aliased))
     # the two interfaces against each other
     for ename, lname in CROSS:
         cls = W.leg[lname][0]
         aliased = bool(leg_facts.get(cls.__name__, {}).get("_sample", {}).get("argmut"))
         for N in ((2, 5, 9) if not ctx.thorough else (1, 2, 3, 5, 9, 17, 30)):
-            cases.append(cross_case(W, ename, lname, W.x0(rng, W.exp[ename][1]), N, rng.randint(1, 10 ** 6), aliased))
+            cases.append(guard(cross_case, W, ename, lname, W.x0(rng, W.exp[ename][1]), N, rng.randint(1, 10 ** 6), aliased))
     # sample_adapt below the adaptation interval: a refusal (ZeroDivisionError) exactly for N < 10
     for name in ("MH/sample_adapt", "CWMH/sample_adapt", "pCN/sample_adapt"):
         for (N, Nb) in ((1, 0), (5, 2), (9, 0), (9, 3), (10, 0), (11, 1)):
-            cases.append(adapt_refusal_case(W, name, W.x0(rng, W.leg[name][1]), N, Nb, rng.randint(1, 10 ** 6)))
+            cases.append(guard(adapt_refusal_case, W, name, W.x0(rng, W.leg[name][1]), N, Nb, rng.randint(1, 10 ** 6)))
     # ---- Gibbs
     for (calls, nb) in (([0, 3], 2), ([0, 2, 1], 3), ([0, 2], 0)):
-        cases.append(gibbs_case(W, calls, nb, rng.randint(1, 10 ** 6)))
+        cases.append(guard(gibbs_case, W, calls, nb, rng.randint(1, 10 ** 6)))
     for nb in ([0, 2] if not ctx.thorough else [0, 2, 5]):
         for calls in ([[4], [1, 3], [2, 2], [3, 1], [1, 1, 2], [2, 1, 1]] if not ctx.thorough else
                       [[8]] + [[k, 8 - k] for k in range(1, 8)] + [[1, 1, 2], [2, 1, 1], [3, 2, 3], [1, 1, 1, 1, 1]]):
-            cases.append(gibbs_case(W, calls, nb, rng.randint(1, 10 ** 6)))
+            cases.append(guard(gibbs_case, W, calls, nb, rng.randint(1, 10 ** 6)))
         for calls in ([2, 2], [1, 2, 1]):
-            cases.append(gibbs_case(W, calls, nb, rng.randint(1, 10 ** 6), scribble=True))
+            cases.append(guard(gibbs_case, W, calls, nb, rng.randint(1, 10 ** 6), scribble=True))
     for name in W.HYBRID[2:]:
         # several inner steps per sweep, rejecting and exact block samplers: long enough to meet sweeps in which an early
         # inner step is accepted and the last one rejected
@@ -1476,15 +1678,19 @@ def gen_cases(ctx, rng, thorough_sizes=None):
             seed = rng.randint(1, 10 ** 6)
             n = ctx.n(16, 60)
             for ops in ([("S", n)], [("S", 3), ("S", n - 3)], [("S", 0), ("S", n)]):
-                cases.append(hybrid_case(W, name, w + ops, seed))
+                cases.append(guard(hybrid_case, W, name, w + ops, seed))
+    for name in W.HYBRID:
+        for warm in (0, 4):
+            for k in ((0, 3) if not ctx.thorough else (0, 1, 3, 7)):
+                cases.append(guard(hybrid_resume_case, W, name, warm, k, ctx.n(8, 16), rng.randint(1, 10 ** 6)))
     for name in W.HYBRID[:2]:
         N = ctx.n(5, 12)
         for w in ([], [("W", 3, 1, 4)]):
             seed = rng.randint(1, 10 ** 6)
             for k in range(N + 1):
-                cases.append(hybrid_case(W, name, w + [("S", k), ("S", N - k)], seed))
-            cases.append(hybrid_case(W, name, w + [("S", 1), ("S", 2), ("S", 1)], seed))
-            cases.append(hybrid_case(W, name, w + [("S", 2), ("S", 2)], seed, scribble=True))
+                cases.append(guard(hybrid_case, W, name, w + [("S", k), ("S", N - k)], seed))
+            cases.append(guard(hybrid_case, W, name, w + [("S", 1), ("S", 2), ("S", 1)], seed))
+            cases.append(guard(hybrid_case, W, name, w + [("S", 2), ("S", 2)], seed, scribble=True))
     return cases
 
 
@@ -1525,6 +1731,8 @@ def _rerun(ctx, m):
         return gibbs_case(W, m["calls"], m["Nb"], m["seed"], scribble=m.get("scribble", False))
     if k == "hybrid":
         return hybrid_case(W, m["config"], [tuple(o) for o in m["ops"]], m["seed"], scribble=m.get("scribble", False))
+    if k == "hybrid-resume":
+        return hybrid_resume_case(W, m["config"], m["warm"], m["k"], m["n"], m["seed"])
     if k == "cross":
         try:
             lf = TR.extract_legacy(ctx.repo)
@@ -1547,7 +1755,7 @@ def _rerun(ctx, m):
         cs = burn_cases(W, m["config"], m["x0"], [tuple(o) for o in m["ops"]], m["seed"], [(m["Nb"], m["Nt"])])
         return cs[0]
     if k == "reinit":
-        return reinit_case(W, m["config"], m["x0"], [tuple(o) for o in m["ops"]], m["K"], m["seed"])
+        return reinit_case(W, m["config"], m["x0"], [tuple(o) for o in m["ops"]], m["K"], m["seed"], m.get("reassign"))
     return None
 
 
